@@ -163,7 +163,8 @@ func genFaults(c *Ctx, kinds []string) {
 			faultSweep(c, "SPEC "+p, t, kinds, true)
 		}
 	}
-	for _, p := range []string{"lc 1 fromiterp 0 1,2,3", "merge 2 fromiterp 0 1,3 fromiterp 1 2,4", "concat 2 fromiterp 0 1,2 lc 3 fromiterp 1 3"} {
+	for _, p := range []string{"lc 1 fromiterp 0 1,2,3", "merge 2 fromiterp 0 1,3 fromiterp 1 2,4", "concat 2 fromiterp 0 1,2 lc 3 fromiterp 1 3",
+		"lc 1 fromiter2p 0 1,2,3", "zip 2 fromiter2p 0 1,2,3 fromiterp 1 4,5", "concat 2 fromiter2p 0 1,2 lc 3 fromiter2p 1 3"} {
 		for _, t := range terms {
 			faultSweep(c, "SPEC "+p, t, kinds, true)
 		}
